@@ -275,7 +275,10 @@ pub fn run(case: &Case, known: &BTreeSet<String>) -> Outcome {
             let pos = r.image.iter().zip(reference.image.iter()).position(|(a, b)| a != b);
             bad = Some((format!("{}.image-differs", name), format!("final image on backend '{}' is not byte-identical to the plain run (lengths {} vs {}, first difference at byte {:?})", name, r.image.len(), reference.image.len(), pos)));
         } else if name == "repeat" && r.trace != reference.trace {
-            bad = Some(("repeat.trace-differs".into(), "the seam event log of a repeated run differs".into()));
+            // same results, same bytes, but the underlying calls came in another order: the
+            // property does not forbid that (it would make fault positions unrepeatable, which
+            // is the harness's problem) - measured, not judged
+            o.stats.probe("repeat_run_seam_log_differs");
         }
         if let Some((rule, msg)) = bad {
             push(&mut o, &rule, "differential", msg);
